@@ -22,9 +22,22 @@ func runInto(c *core.Ctx, in *inst, plan core.WriterPlan) (*core.SimWriter, erro
 	return core.Unwrap(w), err, pi
 }
 
+// purity: the history / schedule clauses are judged under C18 for serializers and
+// under the reader's own property for the reader instances (readers.go).
+func purity(c *core.Ctx) bool {
+	if readerMakers[core.ActiveProp()] != nil {
+		return true
+	}
+	return c.Oracle("C18")
+}
+
 func pickInst(c *core.Ctx, onlyWriters bool) *inst { return pickInstFor(c, onlyWriters, true) }
 
 func pickInstFor(c *core.Ctx, onlyWriters, allowSeqOnly bool) *inst {
+	if rm := readerMakers[core.ActiveProp()]; rm != nil && !onlyWriters {
+		// under a reader's property the instances are that reader's
+		return rm[c.Pick("reader", len(rm))](c)
+	}
 	for {
 		in := instMakers[c.Pick("serializer", len(instMakers))](c)
 		if (!onlyWriters || in.writer) && (allowSeqOnly || !in.seqOnly) {
@@ -252,14 +265,14 @@ func TestHistory(t *testing.T) {
 				if pi != nil {
 					c.CheckTotal(cl.in.name, 0, pi, 0)
 				}
-				if !c.Oracle("C18") {
+				if !purity(c) {
 					continue
 				}
 				if got := (outcome{sw.Accepted, err != nil}); !got.same(solo[cl.ref]) {
 					c.Violation("output-depends-on-history", cl.in.name, "call %d of the history: error=%v, %d bytes; solo first call: error=%v, %d bytes; first difference at %d (%v)", k, got.failed, len(got.out), solo[cl.ref].failed, len(solo[cl.ref].out), firstDiff(got.out, solo[cl.ref].out), err)
 				}
 			}
-			if c.Oracle("C18") {
+			if purity(c) {
 				for i, in := range insts {
 					if in.sharedHash != nil && in.sharedHash() != before[i] {
 						c.Violation("shared-input-modified", in.name, "a shared read-only input changed during the history")
@@ -454,7 +467,7 @@ func interleave(c *core.Ctx, fine bool) {
 					switches++
 				}
 			}
-			if c.Oracle("C18") {
+			if purity(c) {
 				for i, tk := range tasks {
 					if tk.panicV != nil {
 						c.Violation("panic", tk.in.name, "task %d panicked: %v", i, tk.panicV)
@@ -539,7 +552,7 @@ func TestParallelRace(t *testing.T) {
 				close(gates[i])
 			}
 			wg.Wait()
-			if c.Oracle("C18") {
+			if purity(c) {
 				for i := range results {
 					for r := range results[i] {
 						x := results[i][r]
